@@ -450,6 +450,13 @@ def run_cli_inproc(path, changes):
     return r.exit_code, r.output
 
 
+def run_cli_subprocess(path, changes):
+    """the real executable (PYTHONPATH is set by vlib, so it runs the tree under test)"""
+    import subprocess
+    r = subprocess.run(["/venv/bin/octave", "write", path, "--changes", json.dumps(changes)], capture_output=True, text=True, timeout=300)
+    return r.returncode, r.stdout + r.stderr
+
+
 def oracle_history(case):
     """case = {"text": canonical file, "requests": [{"changes":…, "mutations":…|None}…], "entry": "mcp"|"cli"}
     Runs the requests one after the other through the real entry point on a temp file and checks, after
@@ -481,8 +488,8 @@ def oracle_history(case):
                 return {"status": "skip", "why": f"precondition: {type(e).__name__}", "step": i}
             changes, mutations = rq["changes"], rq.get("mutations")
             try:
-                if entry == "cli":
-                    code, out = run_cli_inproc(path, changes)
+                if entry in ("cli", "cli-subprocess"):
+                    code, out = run_cli_subprocess(path, changes) if entry == "cli-subprocess" else run_cli_inproc(path, changes)
                     ok, detail = code == 0, out[-300:]
                 else:
                     res = run_tool(path, changes, mutations)
@@ -898,28 +905,6 @@ def contains_nonempty_dict(v):
     return False
 
 
-def kf_cli_delete_sentinel(case, step):
-    """entry point = CLI and a request of the history (up to the failing step) contains a DELETE sentinel where the MCP tool would dispatch on it"""
-    if case.get("kind", "history") != "history":
-        return False
-    return case.get("entry") == "cli" and any(any(is_delete(v) for v in dispatch_values(rq)) or is_delete(rq["changes"].get("META"))
-                                              for rq in case["requests"][:step + 1])
-
-
-def kf_cli_meta_replace(case, step):
-    """entry point = CLI and a request of the history (up to the failing step) has a META{...} dict (the CLI replaces META instead of merging)"""
-    if case.get("kind", "history") != "history":
-        return False
-    return case.get("entry") == "cli" and any(isinstance(rq["changes"].get("META"), dict) for rq in case["requests"][:step + 1])
-
-
-def kf_cli_container_value(case, step):
-    """entry point = CLI and a request value of the history (up to the failing step) is a list or a dict (stored raw, printed with str())"""
-    if case.get("kind", "history") != "history":
-        return False
-    return case.get("entry") == "cli" and any(isinstance(v, (list, dict)) for rq in case["requests"][:step + 1] for v in dispatch_values(rq))
-
-
 def kf_nested_inline_map(case, step):
     """a value request (`_apply_changes`, whichever entry point reaches it) whose value is a map that contains a map, directly or through lists"""
     if case.get("kind", "history") != "history":
@@ -939,13 +924,7 @@ def kf_map_relayout(case, step):
     return False
 
 
-def kf_meta_all_absent(case, step=0):
-    """Absent placed on the only entry of META: `emit` appends the empty text of emit_meta as a blank line"""
-    return case.get("kind") == "absent" and case["pos"][0] == "meta" and len(case["doc"]["meta"]) == 1
-
-
-CLASSES = {f.__name__: f for f in (kf_cli_delete_sentinel, kf_cli_meta_replace, kf_cli_container_value, kf_nested_inline_map,
-                                   kf_map_relayout, kf_meta_all_absent)}
+CLASSES = {f.__name__: f for f in (kf_nested_inline_map, kf_map_relayout)}
 
 
 # ---------------------------------------------------------------------------------------------
@@ -978,6 +957,14 @@ def work_absent(case):
 
 def work_emit(D):
     return impl_emit(D)
+
+
+def work_cli_twin(case):
+    """the same history through the MCP tool: the CLI goes through the same `_apply_changes`, so the
+    files must come out byte-identical (model: `C18_cli_is_apply_changes`)."""
+    twin = dict(case)
+    twin["entry"] = "mcp"
+    return oracle_history(twin)
 
 
 def work_tristate(case):
